@@ -2034,11 +2034,13 @@ impl<R: Reader, S: EvaluationStorage<R>> Evaluation<R, S> {
         }
 
         while !self.end_of_expression() {
-            self.iteration += 1;
-            if let Some(max_iterations) = self.max_iterations
-                && self.iteration > max_iterations
-            {
-                return Err(Error::TooManyIterations);
+            // Only count when there is a limit, and compare before incrementing, so that
+            // the counter cannot overflow (not even for a limit of `u32::MAX`).
+            if let Some(max_iterations) = self.max_iterations {
+                if self.iteration >= max_iterations {
+                    return Err(Error::TooManyIterations);
+                }
+                self.iteration += 1;
             }
 
             let op_result = self.evaluate_one_operation()?;
